@@ -101,6 +101,20 @@ Theorem C18_lang_reaches_lookups_exec : forall fuel rs c e,
                          | _ => True end) new.
 Proof. exact eng_exec_inner_calls. Qed.
 
+(* the entry function of WithFirst runs through the same loop (first_start is the configuration
+   runFirst starts from: one level down, at "_first"); eng_init calls it with the session language *)
+Theorem C18_lang_reaches_lookups_first : forall fuel c lang e script,
+  c_first c = Some script -> lang_inv lang (v_st (e_v e)) ->
+  exists new, v_log (e_v (fst (fst (run_first fuel c lang e)))) = new ++ v_log (e_v e)
+    /\ Forall (fun ev => match ev with
+                         | EvFunc _ l _ => exists c0 l2 b2 v2, first_start lang e = Some c0
+                                             /\ reaches (first_rsrc script) [] c0 (l2, b2, v2)
+                                             /\ l = eff_lang l2 (v_st v2)
+                                             /\ (l = s_lang (v_st v2) \/ s_lang (v_st v2) = None)
+                         | EvRender _ _ _ => False
+                         | _ => True end) new.
+Proof. exact run_first_calls. Qed.
+
 (* Flush: every render event (the page, and the second render after a BrowseError) carries the
    session language at flush time *)
 Theorem C18_lang_reaches_lookups_flush : forall fuel rs c e,
@@ -294,6 +308,20 @@ Example C18_config_cases :
       /\ option_map (fun sn => s_lang (fst sn)) (pw_store p3) = Some (Some (s2b "nor"))).
 Proof. vm_compute. repeat split; reflexivity. Qed.
 
+(* entry function configured, language "no" configured: the very first call of _first (one per
+   engine: once in long-lived, once per request in persisted operation) carries nor *)
+Example C18_first_function :
+  (let '(e, outs) := ex_long (app_rsrc ex_app_plain) ex_cfg_first (ex_e0 ex_cfg_first) [[]; s2b "1"] in
+   ex_calls (v_log (e_v e)) =
+     [EvFunc first_sym (Some (s2b "nor")) (Some []); EvFunc (s2b "other") (Some (s2b "nor")) (Some []);
+      EvRender (s2b "root") 0 (Some (s2b "nor")); EvRender (s2b "foo") 0 (Some (s2b "nor"))])
+  /\ (let '(p, outs) := ex_pers (app_rsrc ex_app_plain) ex_cfg_first ex_p0 [[]; s2b "1"] in
+      ex_calls (pw_log p) =
+        [EvFunc first_sym (Some (s2b "nor")) (Some []); EvFunc (s2b "other") (Some (s2b "nor")) (Some []);
+         EvRender (s2b "root") 0 (Some (s2b "nor")); EvFunc first_sym (Some (s2b "nor")) (Some (s2b "1"));
+         EvRender (s2b "foo") 0 (Some (s2b "nor"))]).
+Proof. vm_compute. repeat split; reflexivity. Qed.
+
 (* non-interference hypothesis on concrete applications *)
 Example C18_agree_example :
   let a := ex_app_switch (s2b "mzizi") (s2b "endelea") in
@@ -313,6 +341,7 @@ Print Assumptions C18_run_lang_follows_session.
 Print Assumptions C18_run_function_calls.
 Print Assumptions C18_lang_reaches_lookups_refuted_emptylang.
 Print Assumptions C18_lang_reaches_lookups_exec.
+Print Assumptions C18_lang_reaches_lookups_first.
 Print Assumptions C18_lang_reaches_lookups_flush.
 Print Assumptions C18_flush_noninterference.
 Print Assumptions C18_flush_noninterference_app.
